@@ -9,6 +9,7 @@ require (
 	github.com/hashicorp/raft v1.7.3
 	github.com/mattn/go-sqlite3 v1.14.47
 	github.com/rqlite/rqlite/v10 v10.0.0
+	github.com/rqlite/sql v0.0.0-20260224021119-1b2524a41372
 	google.golang.org/protobuf v1.36.11
 )
 
@@ -44,7 +45,6 @@ require (
 	github.com/mattn/go-colorable v0.1.15 // indirect
 	github.com/mattn/go-isatty v0.0.22 // indirect
 	github.com/rqlite/raft-boltdb/v2 v2.0.0-20230523104317-c08e70f4de48 // indirect
-	github.com/rqlite/sql v0.0.0-20260224021119-1b2524a41372 // indirect
 	go.etcd.io/bbolt v1.5.0 // indirect
 	golang.org/x/sys v0.46.0 // indirect
 )
